@@ -1,14 +1,15 @@
 (* Proofs about the evaluation state machine of DdsEval.v (C01, C04, C10, C11, C15), over the vocabulary of
    EvalSpec.v.
-   - exec_paths_unchanged, exec_blobs_monotone, exec_log_mono: every mode, every program, no hypothesis.
+   - exec_paths_unchanged, exec_blobs_monotone, exec_log_mono: every mode, every program (loads included), no
+     hypothesis.
    - exec_plain_pv: plain execution without loads is the pure semantics pv_fn.
-   - dds_exec_correct_partial / dds_call_correct_partial: C01 under sound_fn PLUS strict_fn / root_strict ("a key that
-     denotes a value belongs only to nodes whose plain execution returns").  Without them the statements are false:
-     dds_exec_correct_false, dds_call_correct_false (section 8).  dds_exec_correct_ret / dds_call_correct_ret: the
-     original hypotheses suffice when plain execution returns a value.
+   - dds_exec_correct, dds_exec_monotone, dds_call_correct: C01, under sound_fn / root_sound with "key denotes v
+     IFF the plain value is v".  The one-directional notion (wsound_fn, wroot_sound, section 8) is too weak:
+     dds_exec_correct_false, dds_call_correct_false.
    - rejected_is_pure, analysis_only_pure, fail_no_commit, no_commit_keeps_paths, analysis_paths_only, commit_exact,
      commit_only_when_complete: no hypothesis on program, store or signatures.
-   - history_sound, history_monotone: StoreOK along every history of calls satisfying call_hyp. *)
+   - history_sound, history_monotone: StoreOK along every history of calls satisfying call_hyp.
+   No theorem needs Den to be functional: the iff of sound_fn gives uniqueness at every key that is written. *)
 From Coq Require Import List Ascii String ZArith NArith Bool Lia.
 From DDS Require Import Base.Bytes L0_Hash.PyVal L1_Args.ArgCtx L3_Sig.Program L3_Sig.Sig
      L4_Eval.Stages L4_Eval.DdsEval L4_Eval.EvalSpec.
@@ -175,8 +176,8 @@ Definition load_step (m : mode) (en : env) (s : state) (p : bytes) : (outcome + 
     | Some v => (inr (add_local en v), s)
     | None => (inl (DdsErr "NONE"), s)
     end
-  | Dds _ =>
-    match blookup p (s_paths s) with
+  | Dds requested =>
+    match (match blookup p requested with Some k => Some k | None => blookup p (s_paths s) end) with
     | None => (inl (DdsErr "NONE"), s)
     | Some key =>
       match blookup key (s_blobs s) with
@@ -315,7 +316,8 @@ Section Inv.
   Proof.
     intros m en s p x s' Hex. unfold load_step in Hex. destruct m as [|req].
     - destruct (blookup p (s_kept s)); inversion Hex; subst; apply R_refl.
-    - destruct (blookup p (s_paths s)) as [key|]; [|inversion Hex; subst; apply R_refl].
+    - destruct (match blookup p req with Some k => Some k | None => blookup p (s_paths s) end) as [key|];
+        [|inversion Hex; subst; apply R_refl].
       destruct (blookup key (s_blobs s)); inversion Hex; subst; apply R_refl.
   Qed.
 
@@ -470,46 +472,12 @@ Proof.
     eapply plain_view; [apply Hv|apply nl_step_view; exact Hnl|exact Hex].
 Qed.
 
-(* the [inl] outcomes of the pure semantics are never [Ret] *)
-Lemma pv_call_inl : forall en g pv o, pv_call en g pv = inl o -> is_ret o = false.
-Proof.
-  intros en g pv o Hc. unfold pv_call in Hc. destruct pv as [pv|].
-  - destruct (pv_fn g pv); inversion Hc; subst; reflexivity.
-  - inversion Hc; subst; reflexivity.
-Qed.
-
-Lemma pv_inl_all :
-  (forall f : fn, True) /\
-  (forall b, forall en o, pv_body b en = inl o -> is_ret o = false) /\
-  (forall s, forall en o, pv_steps s en = inl o -> is_ret o = false) /\
-  (forall s, forall en o, pv_step s en = inl o -> is_ret o = false).
-Proof.
-  apply prog_ind_view.
-  - intros; exact I.
-  - intros vars exts sts IH en o Hb. rewrite pv_body_eq in Hb. eapply IH; exact Hb.
-  - intros en o Hb. discriminate Hb.
-  - intros st r IHst IHr en o Hb. rewrite pv_steps_cons in Hb.
-    destruct (pv_step st en) as [o1|en1] eqn:Hs.
-    + inversion Hb; subst. eapply IHst; exact Hs.
-    + eapply IHr; exact Hb.
-  - intros st _ en o Hb. rewrite pv_step_view in Hb.
-    destruct (step_view st en) as [|g pv|p g pv|p]; simpl in Hb.
-    + discriminate Hb.
-    + eapply pv_call_inl; exact Hb.
-    + eapply pv_call_inl; exact Hb.
-    + inversion Hb; subst; reflexivity.
-Qed.
-
-Lemma pv_body_inl : forall b en o, pv_body b en = inl o -> is_ret o = false.
-Proof. exact (proj1 (proj2 pv_inl_all)). Qed.
-
 (* ------------------------------------------------------------------------------------------------------------ *)
 (* 4. memoised execution                                                                                       *)
 (* ------------------------------------------------------------------------------------------------------------ *)
 
 Section WithDen.
   Variable Den : bytes -> rv -> Prop.
-  Hypothesis Den_fun : forall k v v', Den k v -> Den k v' -> v = v'.
 
   (* ---- 4.1 theorem 1 ---- *)
   Lemma exec_plain_pv : forall f pvals s, no_loads_fn f = true ->
@@ -525,59 +493,13 @@ Section WithDen.
     - apply exec_paths_unchanged.
   Qed.
 
-  (* ---- 4.2 the hypothesis that EvalSpec.sound_fn lacks ----
-     [sound_fn] only says: IF the plain execution of a kept node returns v THEN its key denotes v.  A kept node whose
-     plain execution raises may therefore carry a key that denotes some value; if the store holds a blob under that
-     key (StoreOK allows it) the memoised execution serves the blob where plain execution raises.
-     [strict_fn sp f pvals]: along the plain execution, a key that denotes anything belongs only to kept nodes whose
-     plain execution returns. *)
-  Definition strict_kept_at (sp : list (bytes * bytes)) (g : fn) (path : bytes) (pv : list rv) : Prop :=
-    forall key v, blookup path sp = Some key -> Den key v -> is_ret (pv_fn g pv) = true.
-
-  Fixpoint strict_fn (sp : list (bytes * bytes)) (f : fn) (pvals : list rv) {struct f} : Prop :=
-    match f with
-    | Fn _ _ _ _ _ _ _ bds =>
-      match bds with BCons b _ => strict_body sp b (Env pvals [] []) | BNil => True end
-    end
-  with strict_body (sp : list (bytes * bytes)) (b : body) (en : env) {struct b} : Prop :=
-    match b with Body vars _ sts => strict_steps sp sts (Env (e_params en) (map snd vars) []) end
-  with strict_steps (sp : list (bytes * bytes)) (sts : steps) (en : env) {struct sts} : Prop :=
-    match sts with
-    | SNil => True
-    | SCons st r =>
-      strict_step sp st en /\
-      match pv_step st en with inr en' => strict_steps sp r en' | inl _ => True end
-    end
-  with strict_step (sp : list (bytes * bytes)) (st : step) (en : env) {struct st} : Prop :=
-    let kept (g : fn) (path : bytes) (pv : option (list rv)) : Prop :=
-      match pv with
-      | None => True
-      | Some pv =>
-        (forall key v, blookup path sp = Some key -> Den key v -> is_ret (pv_fn g pv) = true) /\
-        strict_fn sp g pv
-      end in
-    let plain (g : fn) (pv : option (list rv)) : Prop :=
-      match fn_annot g with
-      | Some p => kept g p pv
-      | None => match pv with Some pv => strict_fn sp g pv | None => True end
-      end in
-    match st with
-    | SCall _ _ g args => plain g (bind_args (fn_params g) 0 (map (eval_expr en) args) [])
-    | SRef _ g true | SApply g => plain g (bind_args (fn_params g) 0 [] [])
-    | SRef _ _ false => True
-    | SKeep _ _ p g pos kw =>
-      kept g p (bind_args (fn_params g) 0 (map (fun ea => eval_expr en (fst ea)) pos)
-                          (map (fun nk => (fst nk, eval_expr en (fst (snd nk)))) kw))
-    | SLoad _ => True
-    end.
-
-  (* views of the two predicates *)
+  (* ---- 4.2 soundness of a step, through its view ---- *)
   Definition sound_kept (sp : list (bytes * bytes)) (g : fn) (path : bytes) (pv : option (list rv)) : Prop :=
     match pv with
     | None => True
     | Some pv =>
       exists key, blookup path sp = Some key /\
-                  (forall v, pv_fn g pv = Ret v -> Den key v) /\ sound_fn Den sp g pv
+                  (forall v, Den key v <-> pv_fn g pv = Ret v) /\ sound_fn Den sp g pv
     end.
   Definition sound_plain (sp : list (bytes * bytes)) (g : fn) (pv : option (list rv)) : Prop :=
     match fn_annot g with
@@ -591,30 +513,7 @@ Section WithDen.
     | VKeep p g pv => sound_kept sp g p pv
     end.
 
-  Definition strict_kept (sp : list (bytes * bytes)) (g : fn) (path : bytes) (pv : option (list rv)) : Prop :=
-    match pv with
-    | None => True
-    | Some pv => strict_kept_at sp g path pv /\ strict_fn sp g pv
-    end.
-  Definition strict_plain (sp : list (bytes * bytes)) (g : fn) (pv : option (list rv)) : Prop :=
-    match fn_annot g with
-    | Some p => strict_kept sp g p pv
-    | None => match pv with Some pv => strict_fn sp g pv | None => True end
-    end.
-  Definition strict_view (sp : list (bytes * bytes)) (v : view) : Prop :=
-    match v with
-    | VSkip | VLoad _ => True
-    | VCall g pv => strict_plain sp g pv
-    | VKeep p g pv => strict_kept sp g p pv
-    end.
-
   Lemma sound_step_view : forall sp st en, sound_step Den sp st en = sound_view sp (step_view st en).
-  Proof.
-    intros sp st en.
-    destruct st as [l e g a|l g ex|g|l e p g pos kw|p]; try destruct ex; reflexivity.
-  Qed.
-
-  Lemma strict_step_view : forall sp st en, strict_step sp st en = strict_view sp (step_view st en).
   Proof.
     intros sp st en.
     destruct st as [l e g a|l g ex|g|l e p g pos kw|p]; try destruct ex; reflexivity.
@@ -625,49 +524,7 @@ Section WithDen.
     (sound_step Den sp st en /\ match pv_step st en with inr en' => sound_steps Den sp r en' | inl _ => True end).
   Proof. reflexivity. Qed.
 
-  Lemma strict_steps_cons : forall sp st r en,
-    strict_steps sp (SCons st r) en =
-    (strict_step sp st en /\ match pv_step st en with inr en' => strict_steps sp r en' | inl _ => True end).
-  Proof. reflexivity. Qed.
-
-  (* ---- 4.3 when plain execution returns, strictness is free ---- *)
-  Lemma strict_of_ret_all :
-    (forall f, forall sp pvals, is_ret (pv_fn f pvals) = true -> strict_fn sp f pvals) /\
-    (forall b, forall sp en en', pv_body b en = inr en' -> strict_body sp b en) /\
-    (forall s, forall sp en en', pv_steps s en = inr en' -> strict_steps sp s en) /\
-    (forall s, forall sp en en', pv_step s en = inr en' -> strict_step sp s en).
-  Proof.
-    apply prog_ind_view.
-    - intros n tag raises l p a c bds IH sp pvals Hr. rewrite pv_fn_eq in Hr.
-      destruct bds as [|b r]; [exact I|].
-      change (strict_body sp b (Env pvals [] [])).
-      destruct (pv_body b (Env pvals [] [])) as [o|en1] eqn:Hb.
-      + apply pv_body_inl in Hb. congruence.
-      + eapply IH; exact Hb.
-    - intros vars exts sts IH sp en en' Hb. rewrite pv_body_eq in Hb.
-      change (strict_steps sp sts (Env (e_params en) (map snd vars) [])). eapply IH; exact Hb.
-    - intros sp en en' _. exact I.
-    - intros st r IHst IHr sp en en' Hb. rewrite pv_steps_cons in Hb. rewrite strict_steps_cons.
-      destruct (pv_step st en) as [o1|en1] eqn:Hs; [discriminate Hb|].
-      split; [eapply IHst; exact Hs|eapply IHr; exact Hb].
-    - intros st Hv sp en en' Hb. rewrite pv_step_view in Hb. rewrite strict_step_view.
-      specialize (Hv en).
-      destruct (step_view st en) as [|g pv|p g pv|p]; simpl in Hv, Hb |- *; try exact I.
-      + unfold pv_call in Hb. unfold strict_plain, strict_kept, strict_kept_at.
-        destruct pv as [pv|]; [|destruct (fn_annot g); exact I].
-        destruct (pv_fn g pv) as [v| | |] eqn:Hpv; try discriminate Hb.
-        assert (Hst : strict_fn sp g pv) by (apply Hv; rewrite Hpv; reflexivity).
-        destruct (fn_annot g); [split; [intros; reflexivity|exact Hst]|exact Hst].
-      + unfold pv_call in Hb. unfold strict_kept, strict_kept_at.
-        destruct pv as [pv|]; [|exact I].
-        destruct (pv_fn g pv) as [v| | |] eqn:Hpv; try discriminate Hb.
-        split; [intros; reflexivity|apply Hv; rewrite Hpv; reflexivity].
-  Qed.
-
-  Lemma strict_of_ret : forall sp f pvals, is_ret (pv_fn f pvals) = true -> strict_fn sp f pvals.
-  Proof. intros sp f pvals Hr. apply (proj1 strict_of_ret_all); exact Hr. Qed.
-
-  (* ---- 4.4 the invariant carried through an execution ---- *)
+  (* ---- 4.3 the invariant carried through an execution ---- *)
   Definition post (s s' : state) : Prop := StoreOK Den s' /\ ext s s'.
 
   Lemma post_refl : forall s, StoreOK Den s -> post s s.
@@ -692,10 +549,11 @@ Section WithDen.
   Lemma post_sync : forall s s1 sp, post s s1 -> post s (st_sync sp s1).
   Proof. intros s s1 sp Hp. eapply post_same_blobs; [|exact Hp]. reflexivity. Qed.
 
-  (* st_put overwrites, but both the old and the new blob are denoted by the key *)
-  Lemma post_put : forall s s1 key v, post s s1 -> Den key v -> post s (st_put key v s1).
+  (* st_put overwrites, but the key denotes exactly one value *)
+  Lemma post_put : forall s s1 key v,
+    post s s1 -> Den key v -> (forall v0, Den key v0 -> v0 = v) -> post s (st_put key v s1).
   Proof.
-    intros s s1 key v [Hok Hext] Hd. split.
+    intros s s1 key v [Hok Hext] Hd Huniq. split.
     - intros k v0 Hk. change (blookup k (bupdate key v (s_blobs s1)) = Some v0) in Hk.
       destruct (bytes_eqb k key) eqn:E.
       + apply beqb_true in E. subst k. rewrite blookup_bupdate_same in Hk. inversion Hk; subst. exact Hd.
@@ -703,67 +561,73 @@ Section WithDen.
     - intros k v0 Hk. apply Hext in Hk. change (blookup k (bupdate key v (s_blobs s1)) = Some v0).
       destruct (bytes_eqb k key) eqn:E.
       + apply beqb_true in E. subst k. rewrite blookup_bupdate_same.
-        f_equal. eapply Den_fun; [exact Hd|apply Hok; exact Hk].
+        f_equal. symmetry. apply Huniq. apply Hok; exact Hk.
       + apply beqb_false in E. rewrite blookup_bupdate_other by exact E. exact Hk.
   Qed.
 
+  (* what the iff gives at a key *)
+  Lemma den_iff_put : forall key (o : outcome) v,
+    (forall v0, Den key v0 <-> o = Ret v0) -> o = Ret v -> Den key v /\ (forall v0, Den key v0 -> v0 = v).
+  Proof.
+    intros key o v Hiff Ho. split; [apply Hiff; exact Ho|].
+    intros v0 Hd. apply Hiff in Hd. congruence.
+  Qed.
+
   Definition dds_fn_ok (f : fn) : Prop := no_loads_fn f = true ->
-    forall sp pvals s o s', StoreOK Den s -> sound_fn Den sp f pvals -> strict_fn sp f pvals ->
+    forall sp pvals s o s', StoreOK Den s -> sound_fn Den sp f pvals ->
       exec_fn (Dds sp) f pvals s = (o, s') -> o = pv_fn f pvals /\ post s s'.
   Definition dds_body_ok (b : body) : Prop := no_loads_body b = true ->
-    forall sp en s x s', StoreOK Den s -> sound_body Den sp b en -> strict_body sp b en ->
+    forall sp en s x s', StoreOK Den s -> sound_body Den sp b en ->
       exec_body (Dds sp) b en s = (x, s') -> x = pv_body b en /\ post s s'.
   Definition dds_steps_ok (sts : steps) : Prop := no_loads_steps sts = true ->
-    forall sp en s x s', StoreOK Den s -> sound_steps Den sp sts en -> strict_steps sp sts en ->
+    forall sp en s x s', StoreOK Den s -> sound_steps Den sp sts en ->
       exec_steps (Dds sp) sts en s = (x, s') -> x = pv_steps sts en /\ post s s'.
   Definition dds_step_ok (st : step) : Prop := no_loads_step st = true ->
-    forall sp en s x s', StoreOK Den s -> sound_step Den sp st en -> strict_step sp st en ->
+    forall sp en s x s', StoreOK Den s -> sound_step Den sp st en ->
       exec_step (Dds sp) st en s = (x, s') -> x = pv_step st en /\ post s s'.
 
   Lemma dds_kept : forall sp en s g path pv x s',
     dds_fn_ok g -> no_loads_fn g = true -> StoreOK Den s ->
-    sound_kept sp g path (Some pv) -> strict_kept sp g path (Some pv) ->
+    sound_kept sp g path (Some pv) ->
     kept_call (Dds sp) en s g path pv = (x, s') ->
     x = pv_call en g (Some pv) /\ post s s'.
   Proof.
-    intros sp en s g path pv x s' IHg Hnl Hok Hsound Hstrict Hex.
-    destruct Hsound as [key [Hkey [Hden Hsg]]]. destruct Hstrict as [Hret Hstg].
+    intros sp en s g path pv x s' IHg Hnl Hok Hsound Hex.
+    destruct Hsound as [key [Hkey [Hden Hsg]]].
     unfold kept_call in Hex. rewrite Hkey in Hex. unfold pv_call.
     destruct (blookup key (s_blobs s)) as [v|] eqn:Hb.
-    - (* served from the store *)
+    - (* served from the store: the key denotes v, hence the plain value is v *)
       inversion Hex; subst x s'; clear Hex.
-      assert (Hd : Den key v) by (apply Hok; exact Hb).
-      pose proof (Hret key v Hkey Hd) as Hr.
-      destruct (pv_fn g pv) as [v'| | |] eqn:Hpv; try discriminate Hr.
-      assert (Hvv : v = v') by (eapply Den_fun; [exact Hd|apply Hden; reflexivity]).
-      subst v'. split; [reflexivity|apply post_refl; exact Hok].
+      assert (Hpv : pv_fn g pv = Ret v) by (apply Hden; apply Hok; exact Hb).
+      rewrite Hpv. split; [reflexivity|apply post_refl; exact Hok].
     - (* computed, then stored *)
       destruct (exec_fn (Dds sp) g pv s) as [o s1] eqn:Hg.
-      destruct (IHg Hnl sp pv s o s1 Hok Hsg Hstg Hg) as [Ho Hp]. rewrite <- Ho.
+      destruct (IHg Hnl sp pv s o s1 Hok Hsg Hg) as [Ho Hp]. rewrite <- Ho.
       destruct o as [v| | |]; inversion Hex; subst x s'; (split; [reflexivity|]); try exact Hp.
-      apply post_put; [exact Hp|]. apply Hden. symmetry. exact Ho.
+      destruct (den_iff_put key (pv_fn g pv) v Hden (eq_sym Ho)) as [Hd Huniq].
+      apply post_put; assumption.
   Qed.
 
   Lemma dds_user : forall sp en s g pv x s',
     dds_fn_ok g -> no_loads_fn g = true -> StoreOK Den s ->
-    sound_plain sp g (Some pv) -> strict_plain sp g (Some pv) ->
+    sound_plain sp g (Some pv) ->
     user_call (Dds sp) en s g pv = (x, s') ->
     x = pv_call en g (Some pv) /\ post s s'.
   Proof.
-    intros sp en s g pv x s' IHg Hnl Hok Hsound Hstrict Hex.
-    unfold user_call in Hex. unfold sound_plain in Hsound. unfold strict_plain in Hstrict.
+    intros sp en s g pv x s' IHg Hnl Hok Hsound Hex.
+    unfold user_call in Hex. unfold sound_plain in Hsound.
     destruct (fn_annot g) as [p|]; [eapply dds_kept; eassumption|].
     destruct (exec_fn (Dds sp) g pv s) as [o s1] eqn:Hg.
-    destruct (IHg Hnl sp pv s o s1 Hok Hsound Hstrict Hg) as [Ho Hp]. unfold pv_call. rewrite <- Ho.
+    destruct (IHg Hnl sp pv s o s1 Hok Hsound Hg) as [Ho Hp]. unfold pv_call. rewrite <- Ho.
     destruct o as [v| | |]; inversion Hex; subst x s'; (split; [reflexivity|exact Hp]).
   Qed.
 
   Lemma dds_view : forall sp en s v x s',
-    view_ok dds_fn_ok v -> nl_view v = true -> StoreOK Den s -> sound_view sp v -> strict_view sp v ->
+    view_ok dds_fn_ok v -> nl_view v = true -> StoreOK Den s -> sound_view sp v ->
     exec_view (Dds sp) en s v = (x, s') -> x = pv_view en v /\ post s s'.
   Proof.
-    intros sp en s v x s' Hv Hnl Hok Hsound Hstrict Hex.
-    destruct v as [|g pv|p g pv|p]; simpl in Hv, Hnl, Hsound, Hstrict, Hex.
+    intros sp en s v x s' Hv Hnl Hok Hsound Hex.
+    destruct v as [|g pv|p g pv|p]; simpl in Hv, Hnl, Hsound, Hex.
     - inversion Hex; subst. split; [reflexivity|apply post_refl; exact Hok].
     - destruct pv as [pv|]; simpl in Hex.
       + eapply dds_user; eassumption.
@@ -779,73 +643,59 @@ Section WithDen.
     (forall s, dds_step_ok s).
   Proof.
     apply prog_ind_view.
-    - intros n tag raises l p a c bds IH Hnl sp pvals s o s' Hok Hs Hst Hex.
+    - intros n tag raises l p a c bds IH Hnl sp pvals s o s' Hok Hs Hex.
       rewrite exec_fn_eq in Hex. rewrite pv_fn_eq.
       destruct bds as [|b r].
       + inversion Hex; subst. split; [reflexivity|apply post_refl; exact Hok].
       + apply no_loads_fn_cons in Hnl.
         change (sound_body Den sp b (Env pvals [] [])) in Hs.
-        change (strict_body sp b (Env pvals [] [])) in Hst.
         destruct (exec_body (Dds sp) b (Env pvals [] []) s) as [[o1|en1] s1] eqn:Hb;
-          destruct (IH Hnl sp _ s _ s1 Hok Hs Hst Hb) as [Hx Hp]; rewrite <- Hx;
+          destruct (IH Hnl sp _ s _ s1 Hok Hs Hb) as [Hx Hp]; rewrite <- Hx;
           inversion Hex; subst; (split; [reflexivity|]).
         * exact Hp.
         * apply post_log; exact Hp.
-    - intros vars exts sts IH Hnl sp en s x s' Hok Hs Hst Hex.
+    - intros vars exts sts IH Hnl sp en s x s' Hok Hs Hex.
       rewrite exec_body_eq in Hex. rewrite pv_body_eq.
-      eapply IH; [exact Hnl|exact Hok|exact Hs|exact Hst|exact Hex].
-    - intros _ sp en s x s' Hok _ _ Hex. rewrite exec_steps_nil in Hex. inversion Hex; subst.
+      eapply IH; [exact Hnl|exact Hok|exact Hs|exact Hex].
+    - intros _ sp en s x s' Hok _ Hex. rewrite exec_steps_nil in Hex. inversion Hex; subst.
       split; [reflexivity|apply post_refl; exact Hok].
-    - intros st r IHst IHr Hnl sp en s x s' Hok Hs Hst Hex.
+    - intros st r IHst IHr Hnl sp en s x s' Hok Hs Hex.
       apply no_loads_steps_cons in Hnl. destruct Hnl as [Hn1 Hn2].
       rewrite exec_steps_cons in Hex. rewrite pv_steps_cons.
-      rewrite sound_steps_cons in Hs. rewrite strict_steps_cons in Hst.
-      destruct Hs as [Hs1 Hs2]. destruct Hst as [Hst1 Hst2].
+      rewrite sound_steps_cons in Hs. destruct Hs as [Hs1 Hs2].
       destruct (exec_step (Dds sp) st en s) as [[o1|en1] s1] eqn:Hstep;
-        destruct (IHst Hn1 sp en s _ s1 Hok Hs1 Hst1 Hstep) as [Hx Hp]; rewrite <- Hx in *.
+        destruct (IHst Hn1 sp en s _ s1 Hok Hs1 Hstep) as [Hx Hp]; rewrite <- Hx in *.
       + inversion Hex; subst. split; [reflexivity|exact Hp].
-      + destruct (IHr Hn2 sp en1 s1 x s' (proj1 Hp) Hs2 Hst2 Hex) as [Hx2 Hp2].
+      + destruct (IHr Hn2 sp en1 s1 x s' (proj1 Hp) Hs2 Hex) as [Hx2 Hp2].
         split; [exact Hx2|eapply post_trans; eassumption].
-    - intros st Hv Hnl sp en s x s' Hok Hs Hst Hex.
-      rewrite exec_step_view in Hex. rewrite pv_step_view.
-      rewrite sound_step_view in Hs. rewrite strict_step_view in Hst.
-      eapply dds_view; [apply Hv|apply nl_step_view; exact Hnl|exact Hok|exact Hs|exact Hst|exact Hex].
+    - intros st Hv Hnl sp en s x s' Hok Hs Hex.
+      rewrite exec_step_view in Hex. rewrite pv_step_view. rewrite sound_step_view in Hs.
+      eapply dds_view; [apply Hv|apply nl_step_view; exact Hnl|exact Hok|exact Hs|exact Hex].
   Qed.
 
   Lemma dds_exec_post : forall f pvals s sp o s',
-    no_loads_fn f = true -> StoreOK Den s -> sound_fn Den sp f pvals -> strict_fn sp f pvals ->
+    no_loads_fn f = true -> StoreOK Den s -> sound_fn Den sp f pvals ->
     exec_fn (Dds sp) f pvals s = (o, s') -> o = pv_fn f pvals /\ post s s'.
   Proof.
-    intros f pvals s sp o s' Hnl Hok Hs Hst Hex.
+    intros f pvals s sp o s' Hnl Hok Hs Hex.
     eapply (proj1 exec_dds_all); eassumption.
   Qed.
 
-  (* ---- 4.5 theorems 2 and 3 (see the report: the statements without [strict_fn] are false) ---- *)
-  Theorem dds_exec_correct_partial : forall f pvals s sp,
-    no_loads_fn f = true -> StoreOK Den s -> sound_fn Den sp f pvals -> strict_fn sp f pvals ->
+  (* ---- 4.4 theorems 2 and 3 ---- *)
+  Theorem dds_exec_correct : forall f pvals s sp,
+    no_loads_fn f = true -> StoreOK Den s -> sound_fn Den sp f pvals ->
     fst (exec_fn (Dds sp) f pvals s) = pv_fn f pvals /\
     StoreOK Den (snd (exec_fn (Dds sp) f pvals s)) /\
     s_paths (snd (exec_fn (Dds sp) f pvals s)) = s_paths s.
   Proof.
-    intros f pvals s sp Hnl Hok Hs Hst.
+    intros f pvals s sp Hnl Hok Hs.
     destruct (exec_fn (Dds sp) f pvals s) as [o s'] eqn:Hex.
-    destruct (dds_exec_post f pvals s sp o s' Hnl Hok Hs Hst Hex) as [Ho [Hok' _]].
+    destruct (dds_exec_post f pvals s sp o s' Hnl Hok Hs Hex) as [Ho [Hok' _]].
     simpl. split; [exact Ho|split; [exact Hok'|]].
     change s' with (snd (o, s')). rewrite <- Hex. apply exec_paths_unchanged.
   Qed.
 
-  (* the original hypotheses suffice when plain execution returns a value *)
-  Theorem dds_exec_correct_ret : forall f pvals s sp,
-    no_loads_fn f = true -> StoreOK Den s -> sound_fn Den sp f pvals -> is_ret (pv_fn f pvals) = true ->
-    fst (exec_fn (Dds sp) f pvals s) = pv_fn f pvals /\
-    StoreOK Den (snd (exec_fn (Dds sp) f pvals s)) /\
-    s_paths (snd (exec_fn (Dds sp) f pvals s)) = s_paths s.
-  Proof.
-    intros f pvals s sp Hnl Hok Hs Hr.
-    apply dds_exec_correct_partial; try assumption. apply strict_of_ret; exact Hr.
-  Qed.
-
-  (* theorem 3 needs none of StoreOK / no_loads / sound_fn / Den_fun: see exec_blobs_monotone *)
+  (* theorem 3 needs none of StoreOK / no_loads / sound_fn: see exec_blobs_monotone *)
   Lemma dds_exec_monotone : forall f pvals s sp k v,
     blookup k (s_blobs s) = Some v ->
     blookup k (s_blobs (snd (exec_fn (Dds sp) f pvals s))) = Some v.
@@ -861,12 +711,9 @@ Section WithDen.
     (bind_args (fn_params f) 0 (map RVal pos) (map (fun nv => (fst nv, RVal (snd nv))) kw)).
 
   Definition root_sound (sp : list (bytes * bytes)) (x : fi) (f : fn) (sty : style) (pv : list rv) : Prop :=
-    (forall v, pv_fn f pv = Ret v -> Den (fi_sig x) v) /\
-    (forall p key v, root_path f sty = Some p -> blookup p sp = Some key -> pv_fn f pv = Ret v -> Den key v).
-
-  (* the root analogue of [strict_fn]: if the root signature denotes anything, plain execution returns *)
-  Definition root_strict (x : fi) (f : fn) (pv : list rv) : Prop :=
-    forall v, Den (fi_sig x) v -> is_ret (pv_fn f pv) = true.
+    (forall v, Den (fi_sig x) v <-> pv_fn f pv = Ret v) /\
+    (forall p key, root_path f sty = Some p -> blookup p sp = Some key ->
+                   forall v, Den key v <-> pv_fn f pv = Ret v).
 
   (* ---- 5.1 the shape of dds_call ---- *)
   Definition commit (c : config) (sp : list (bytes * bytes)) (s : state) : state :=
@@ -940,7 +787,8 @@ Section WithDen.
     intros f sty sp x pv v s s1 [_ Hroot] Hpv Hp. unfold root_store.
     destruct (root_path f sty) as [p|] eqn:Hrp; [|exact Hp].
     destruct (blookup p sp) as [key|] eqn:Hk; [|exact Hp].
-    apply post_put; [exact Hp|]. eapply Hroot; [reflexivity|exact Hk|exact Hpv].
+    destruct (den_iff_put key (pv_fn f pv) v (Hroot p key eq_refl Hk) Hpv) as [Hd Huniq].
+    apply post_put; assumption.
   Qed.
 
   Lemma run_root_paths : forall c f sty sp pv s,
@@ -955,12 +803,12 @@ Section WithDen.
 
   Lemma run_root_spec : forall c f sty sp x pv s,
     no_loads_fn f = true -> StoreOK Den s ->
-    root_sound sp x f sty pv -> sound_fn Den sp f pv -> strict_fn sp f pv ->
+    root_sound sp x f sty pv -> sound_fn Den sp f pv ->
     fst (run_root c f sty sp pv s) = pv_fn f pv /\ post s (snd (run_root c f sty sp pv s)).
   Proof.
-    intros c f sty sp x pv s Hnl Hok Hroot Hs Hst. unfold run_root.
+    intros c f sty sp x pv s Hnl Hok Hroot Hs. unfold run_root.
     destruct (exec_fn (Dds sp) f pv s) as [o s1] eqn:Hex.
-    destruct (dds_exec_post f pv s sp o s1 Hnl Hok Hs Hst Hex) as [Ho Hp].
+    destruct (dds_exec_post f pv s sp o s1 Hnl Hok Hs Hex) as [Ho Hp].
     destruct o as [v| | |]; simpl; (split; [exact Ho|]); try exact Hp.
     apply post_commit. eapply post_root_store; [exact Hroot|symmetry; exact Ho|exact Hp].
   Qed.
@@ -988,8 +836,7 @@ Section WithDen.
     no_loads_fn f = true -> StoreOK Den s ->
     analysis H mx c f sty pos kw s = inr (x, sp) ->
     has_stage Eval (c_stages c) = true ->
-    (forall pv, bind_top f pos kw = Some pv ->
-       root_sound sp x f sty pv /\ sound_fn Den sp f pv /\ root_strict x f pv /\ strict_fn sp f pv) ->
+    (forall pv, bind_top f pos kw = Some pv -> root_sound sp x f sty pv /\ sound_fn Den sp f pv) ->
     post s (snd (dds_call H mx c f sty pos kw s)) /\
     (forall pv, bind_top f pos kw = Some pv -> fst (dds_call H mx c f sty pos kw s) = pv_fn f pv).
   Proof.
@@ -998,48 +845,27 @@ Section WithDen.
     destruct (blookup (fi_sig x) (s_blobs s)) as [v|] eqn:Hb.
     - (* the root is served from the store *)
       simpl. split; [apply post_commit; apply post_refl; exact Hok|].
-      intros pv Hbind. destruct (Hh pv Hbind) as [[Hroot _] [_ [Hrs _]]].
-      assert (Hd : Den (fi_sig x) v) by (apply Hok; exact Hb).
-      pose proof (Hrs v Hd) as Hr.
-      destruct (pv_fn f pv) as [v'| | |] eqn:Hpv; try discriminate Hr.
-      f_equal. eapply Den_fun; [exact Hd|apply Hroot; reflexivity].
+      intros pv Hbind. destruct (Hh pv Hbind) as [[Hroot _] _].
+      symmetry. apply Hroot. apply Hok. exact Hb.
     - destruct (bind_top f pos kw) as [pv|] eqn:Hbind.
-      + destruct (Hh pv eq_refl) as [Hroot [Hs [_ Hst]]].
-        destruct (run_root_spec c f sty sp x pv s Hnl Hok Hroot Hs Hst) as [Ho Hp].
+      + destruct (Hh pv eq_refl) as [Hroot Hs].
+        destruct (run_root_spec c f sty sp x pv s Hnl Hok Hroot Hs) as [Ho Hp].
         split; [exact Hp|]. intros pv' Hpv'. inversion Hpv'; subst pv'. exact Ho.
       + simpl. split; [apply post_refl; exact Hok|]. intros pv' Hpv'. discriminate Hpv'.
   Qed.
 
-  Theorem dds_call_correct_partial : forall c f sty pos kw s x sp pv,
+  Theorem dds_call_correct : forall c f sty pos kw s x sp pv,
     no_loads_fn f = true -> StoreOK Den s ->
     analysis H mx c f sty pos kw s = inr (x, sp) ->
     has_stage Eval (c_stages c) = true ->
     bind_args (fn_params f) 0 (map RVal pos) (map (fun nv => (fst nv, RVal (snd nv))) kw) = Some pv ->
     root_sound sp x f sty pv -> sound_fn Den sp f pv ->
-    root_strict x f pv -> strict_fn sp f pv ->
     fst (dds_call H mx c f sty pos kw s) = pv_fn f pv /\ StoreOK Den (snd (dds_call H mx c f sty pos kw s)).
   Proof.
-    intros c f sty pos kw s x sp pv Hnl Hok Ha Hev Hbind Hroot Hs Hrs Hst.
+    intros c f sty pos kw s x sp pv Hnl Hok Ha Hev Hbind Hroot Hs.
     destruct (dds_call_core c f sty pos kw s x sp Hnl Hok Ha Hev) as [[Hok' _] Hfst].
-    - intros pv' Hpv'. rewrite Hbind in Hpv'. inversion Hpv'; subst pv'.
-      exact (conj Hroot (conj Hs (conj Hrs Hst))).
+    - intros pv' Hpv'. rewrite Hbind in Hpv'. inversion Hpv'; subst pv'. exact (conj Hroot Hs).
     - split; [apply Hfst; exact Hbind|exact Hok'].
-  Qed.
-
-  (* with the original hypotheses only, when plain execution returns a value *)
-  Theorem dds_call_correct_ret : forall c f sty pos kw s x sp pv,
-    no_loads_fn f = true -> StoreOK Den s ->
-    analysis H mx c f sty pos kw s = inr (x, sp) ->
-    has_stage Eval (c_stages c) = true ->
-    bind_args (fn_params f) 0 (map RVal pos) (map (fun nv => (fst nv, RVal (snd nv))) kw) = Some pv ->
-    root_sound sp x f sty pv -> sound_fn Den sp f pv ->
-    is_ret (pv_fn f pv) = true ->
-    fst (dds_call H mx c f sty pos kw s) = pv_fn f pv /\ StoreOK Den (snd (dds_call H mx c f sty pos kw s)).
-  Proof.
-    intros c f sty pos kw s x sp pv Hnl Hok Ha Hev Hbind Hroot Hs Hr.
-    eapply dds_call_correct_partial; try eassumption.
-    - intros v _. exact Hr.
-    - apply strict_of_ret; exact Hr.
   Qed.
 
   (* ---- 5.3 purity facts: no hypothesis on the program, the store or the signatures ---- *)
@@ -1137,7 +963,7 @@ Section WithDen.
         analysis H mx c f sty pos kw s = inr (x, sp) ->
         has_stage Eval (c_stages c) = true ->
         bind_top f pos kw = Some pv ->
-        root_sound sp x f sty pv /\ sound_fn Den sp f pv /\ root_strict x f pv /\ strict_fn sp f pv
+        root_sound sp x f sty pv /\ sound_fn Den sp f pv
     end.
 
   Fixpoint calls_hyp (s : state) (l : list call) : Prop :=
@@ -1232,19 +1058,16 @@ Definition ex_key : bytes := bs "K".
 Definition ex_sp : list (bytes * bytes) := [(bs "/p", ex_key)].
 Definition ex_Den (k : bytes) (v : rv) : Prop := k = ex_key /\ v = ex_gv.
 
-Lemma ex_Den_fun : forall k v v', ex_Den k v -> ex_Den k v' -> v = v'.
-Proof. intros k v v' [_ Hv] [_ Hv']. congruence. Qed.
-
 Example ex_nonvacuous :
   StoreOK ex_Den st_empty /\ no_loads_fn ex_f = true /\
-  sound_fn ex_Den ex_sp ex_f ex_pv /\ strict_fn ex_Den ex_sp ex_f ex_pv /\
-  pv_fn ex_f ex_pv = Ret ex_fv.
+  sound_fn ex_Den ex_sp ex_f ex_pv /\ pv_fn ex_f ex_pv = Ret ex_fv.
 Proof.
   split; [apply StoreOK_empty|]. split; [reflexivity|].
-  assert (Hpv : pv_fn ex_f ex_pv = Ret ex_fv) by (vm_compute; reflexivity).
-  split; [|split; [apply strict_of_ret; rewrite Hpv; reflexivity|exact Hpv]].
+  split; [|vm_compute; reflexivity].
   vm_compute. split; [|exact I]. eexists. split; [reflexivity|]. split; [|exact I].
-  intros v Hv. inversion Hv; subst. split; reflexivity.
+  intros v. split.
+  - intros [_ Hv]. subst v. reflexivity.
+  - intros Hv. inversion Hv; subst. split; reflexivity.
 Qed.
 
 (* the theorem applied: first evaluation computes and stores, the second is served from the store *)
@@ -1260,14 +1083,60 @@ Proof. vm_compute. reflexivity. Qed.
 Example ex_theorem_instance : forall s, StoreOK ex_Den s ->
   fst (exec_fn (Dds ex_sp) ex_f ex_pv s) = Ret ex_fv /\ StoreOK ex_Den (snd (exec_fn (Dds ex_sp) ex_f ex_pv s)).
 Proof.
-  intros s Hok. destruct ex_nonvacuous as [_ [Hnl [Hs [Hst Hpv]]]].
-  destruct (dds_exec_correct_partial ex_Den ex_Den_fun ex_f ex_pv s ex_sp Hnl Hok Hs Hst) as [Hf [Hok' _]].
+  intros s Hok. destruct ex_nonvacuous as [_ [Hnl [Hs Hpv]]].
+  destruct (dds_exec_correct ex_Den ex_f ex_pv s ex_sp Hnl Hok Hs) as [Hf [Hok' _]].
   rewrite Hpv in Hf. split; assumption.
 Qed.
 
 (* ------------------------------------------------------------------------------------------------------------ *)
-(* 8. why [strict_fn] / [root_strict] are needed: the statements without them are false for the model          *)
+(* 8. why the iff: with the one-directional notion the statements are false for the model                      *)
 (* ------------------------------------------------------------------------------------------------------------ *)
+
+Section Weak.
+  Variable Den : bytes -> rv -> Prop.
+
+  (* EvalSpec.sound_fn with "plain value => denoted" only *)
+  Fixpoint wsound_fn (sp : list (bytes * bytes)) (f : fn) (pvals : list rv) {struct f} : Prop :=
+    match f with
+    | Fn _ _ _ _ _ _ _ bds =>
+      match bds with BCons b _ => wsound_body sp b (Env pvals [] []) | BNil => True end
+    end
+  with wsound_body (sp : list (bytes * bytes)) (b : body) (en : env) {struct b} : Prop :=
+    match b with Body vars _ sts => wsound_steps sp sts (Env (e_params en) (map snd vars) []) end
+  with wsound_steps (sp : list (bytes * bytes)) (sts : steps) (en : env) {struct sts} : Prop :=
+    match sts with
+    | SNil => True
+    | SCons st r =>
+      wsound_step sp st en /\
+      match pv_step st en with inr en' => wsound_steps sp r en' | inl _ => True end
+    end
+  with wsound_step (sp : list (bytes * bytes)) (st : step) (en : env) {struct st} : Prop :=
+    let kept (g : fn) (path : bytes) (pv : option (list rv)) : Prop :=
+      match pv with
+      | None => True
+      | Some pv =>
+        exists key, blookup path sp = Some key /\
+                    (forall v, pv_fn g pv = Ret v -> Den key v) /\ wsound_fn sp g pv
+      end in
+    let plain (g : fn) (pv : option (list rv)) : Prop :=
+      match fn_annot g with
+      | Some p => kept g p pv
+      | None => match pv with Some pv => wsound_fn sp g pv | None => True end
+      end in
+    match st with
+    | SCall _ _ g args => plain g (bind_args (fn_params g) 0 (map (eval_expr en) args) [])
+    | SRef _ g true | SApply g => plain g (bind_args (fn_params g) 0 [] [])
+    | SRef _ _ false => True
+    | SKeep _ _ p g pos kw =>
+      kept g p (bind_args (fn_params g) 0 (map (fun ea => eval_expr en (fst ea)) pos)
+                          (map (fun nk => (fst nk, eval_expr en (fst (snd nk)))) kw))
+    | SLoad _ => True
+    end.
+
+  Definition wroot_sound (sp : list (bytes * bytes)) (x : fi) (f : fn) (sty : style) (pv : list rv) : Prop :=
+    (forall v, pv_fn f pv = Ret v -> Den (fi_sig x) v) /\
+    (forall p key v, root_path f sty = Some p -> blookup p sp = Some key -> pv_fn f pv = Ret v -> Den key v).
+End Weak.
 
 (* def g(): raise ValueError          def f(): return ("f", dds.keep("/p", g)) *)
 Definition cx_g : fn :=
@@ -1279,11 +1148,12 @@ Definition cx_sp : list (bytes * bytes) := [(bs "/p", bs "K")].
 Definition cx_Den (k : bytes) (v : rv) : Prop := k = bs "K" /\ v = RVal VNone.
 Definition cx_s : state := State [(bs "K", RVal VNone)] [] [] [].
 
-(* all the hypotheses of the requested [dds_exec_correct] hold, its conclusion does not: the key of a kept node that
-   raises denotes a value, the store holds it, the memoised execution returns where plain execution raises *)
+(* with the weak notion all the hypotheses of [dds_exec_correct] hold (Den is even functional), its conclusion does
+   not: the key of a kept node that raises denotes a value, the store holds it, the memoised execution returns where
+   plain execution raises *)
 Example dds_exec_correct_false :
   (forall k v v', cx_Den k v -> cx_Den k v' -> v = v') /\
-  no_loads_fn cx_f = true /\ StoreOK cx_Den cx_s /\ sound_fn cx_Den cx_sp cx_f [] /\
+  no_loads_fn cx_f = true /\ StoreOK cx_Den cx_s /\ wsound_fn cx_Den cx_sp cx_f [] /\
   fst (exec_fn (Dds cx_sp) cx_f [] cx_s) <> pv_fn cx_f [].
 Proof.
   split; [intros k v v' [_ Hv] [_ Hv']; congruence|]. split; [reflexivity|].
@@ -1309,7 +1179,7 @@ Example dds_call_correct_false :
   analysis cx_H None cx_cfg cx_f StEval [] [] cx_s2 = inr (cx_x, cx_sp2) /\
   has_stage Eval (c_stages cx_cfg) = true /\
   bind_args (fn_params cx_f) 0 (map RVal []) (map (fun nv : bytes * pyval => (fst nv, RVal (snd nv))) []) = Some [] /\
-  root_sound cx_Den2 cx_sp2 cx_x cx_f StEval [] /\ sound_fn cx_Den2 cx_sp2 cx_f [] /\
+  wroot_sound cx_Den2 cx_sp2 cx_x cx_f StEval [] /\ wsound_fn cx_Den2 cx_sp2 cx_f [] /\
   fst (dds_call cx_H None cx_cfg cx_f StEval [] [] cx_s2) <> pv_fn cx_f [].
 Proof.
   split; [intros k v v' [_ Hv] [_ Hv']; congruence|]. split; [reflexivity|].
@@ -1324,8 +1194,8 @@ Proof.
   - intro Hc. vm_compute in Hc. discriminate Hc.
 Qed.
 
-Print Assumptions dds_exec_correct_partial.
-Print Assumptions dds_call_correct_partial.
+Print Assumptions dds_exec_correct.
+Print Assumptions dds_call_correct.
 Print Assumptions commit_exact.
 Print Assumptions history_sound.
 Print Assumptions exec_paths_unchanged.
